@@ -103,5 +103,12 @@ PROPS['C16'] = dict(engine='ni', level='model_checking', foot=[], quick={}, thor
                                  'states for the paired runs come from seeded random scenarios (form and JSON mode alternate, manual locks are injected to reach locked accounts); timing is out of scope',
                                  'clause (c) is exercised only when the known account is not locked and the failed attempt would not lock it, as the property states'])
 
+PROPS['C20'] = dict(engine='conc', level='model_checking', foot=[], quick={}, thorough={},
+                    technique='independence of disjoint clients as a TLA+ invariant over Apply (TLC, indep family); on the code: concurrent client scripts against one instance built with the Go race detector, per-client transcripts compared with solo runs',
+                    assumptions=['the race detector only sees the interleavings that actually happen in the run (free scheduling, 6-8 clients, many rounds); it is the deciding observation for the "no data race" clause, which a specification cannot express below its atomic steps',
+                                 'the TLA+ part treats a request as one atomic step: it shows that request-level interleavings of disjoint clients cannot influence each other; schedules at backend-call granularity are not enumerated',
+                                 'a race report is attributed to the library when a frame lies under the repository path; a race in harness code only is exit 2',
+                                 'SMTPMailer dials 127.0.0.1:9 (refused); the mime boundary generator runs before the dial'])
+
 import components
-COMPONENT = {'mwtable': components.mwtable, 'clientstate': components.clientstate, 'redirect': components.redirect, 'rules': components.rules, 'codecs': components.codecs, 'faults': components.faults, 'ni': components.noninterference}
+COMPONENT = {'mwtable': components.mwtable, 'clientstate': components.clientstate, 'redirect': components.redirect, 'rules': components.rules, 'codecs': components.codecs, 'faults': components.faults, 'ni': components.noninterference, 'conc': components.concurrency}
